@@ -55,15 +55,14 @@ Strict ==
 ForcedObs ==
     \/ Ev.a = "UpdateMax" /\ Ev.out.ok /\ Ev.in.n < cfg.max
     \/ Ev.a = "StakeFromQueue" /\ Ev.out.ok /\ Ev.in.n > cfg.max - cfg.staked
-\* the exact shape of the named deviation: unJail put k in front of a non-empty list with no last-jailed marker
-\* and the old first element still points to itself
+\* the shape of the named deviation, also when several keys are unjailed by one transaction (intermediate states are
+\* not observed): a key that was not queued is now the first element, directly in front of an element whose PreviousKey
+\* points to itself
 StaleShape ==
-    /\ Ev.a \in {"UnJail", "VUnJail"} /\ Ev.out.ok /\ head.len >= 1 /\ head.lj = NoKey
-    /\ LET of == head.first
-           nf == Ev.st.head.first
-       IN  /\ nf # of /\ nf \in Keys /\ ~el[nf].in            \* a key that was not queued is the new first element
-           /\ Ev.st.el[nf].in /\ Ev.st.el[nf].n = of          \* ... directly in front of the old first element
-           /\ Ev.st.el[of].in /\ Ev.st.el[of].p = of          \* ... whose PreviousKey still points to itself
+    /\ Ev.a \in {"UnJail", "VUnJail"} /\ Ev.out.ok
+    /\ LET nf == Ev.st.head.first IN
+       /\ nf \in Keys /\ ~el[nf].in /\ Ev.st.el[nf].in
+       /\ LET of == Ev.st.el[nf].n IN of \in Keys /\ Ev.st.el[of].in /\ Ev.st.el[of].p = of
 Obs ==
     /\ l <= Len(TLog) /\ Ev.a # "New" /\ l' = l + 1
     /\ reg' = Ev.st.reg /\ head' = Ev.st.head /\ el' = Ev.st.el /\ cfg' = Ev.st.cfg
